@@ -25,31 +25,42 @@ from .c16_nest import valid_path
 
 PRESETS = ("greedy", "optimal", "auto", "auto-hq")
 
-# contraction identity as the interface sees it (after canonicalisation of the index names)
+# contraction identity as the interface sees it: the normalised (inputs, output, size_dict) triple
 _CANON = {}
-CNET = []
-for _n in B.POOL:
+
+
+def cnet(nid, c=0):
+    """model-side name of pool contraction `nid` asked with canonicalize=True (c=0) / False with
+    hashable terms (c=1)"""
+    n = B.POOL[nid]
     try:
-        _k = I.normalize_input(_n.sym_inputs(), _n.sym_output(), _n.sym_sizes(), None, "greedy", True)[:3]
-        _k = (tuple(map(tuple, _k[0])), tuple(_k[1]), tuple(sorted(dict(_k[2]).items())))
+        if c == 0:
+            k = I.normalize_input(n.sym_inputs(), n.sym_output(), n.sym_sizes(), None, "greedy", True)[:3]
+        else:
+            k = I.normalize_input(tuple(n.sym_inputs()), n.sym_output(), n.sym_sizes(), None, "greedy", False)[:3]
+        k = (tuple(map(tuple, k[0])), tuple(k[1]), tuple(sorted(dict(k[2]).items())))
     except Exception:
-        _k = ("pool", len(CNET))
-    CNET.append(_CANON.setdefault(_k, len(_CANON)))
+        k = ("pool", nid, c)
+    return _CANON.setdefault(k, len(_CANON))
+
+
+CNET = [cnet(i) for i in range(len(B.POOL))]
 
 
 _REF = {}
 
 
-def reference_path(nid, p):
+def reference_path(nid, p, canon=True):
     """what the (stateless, deterministic) preset answers for this contraction when asked on its
     own, without the interface cache; None for the presets that search randomly"""
     if PRESETS[p] not in ("greedy", "optimal"):
         return None
-    if (nid, p) not in _REF:
+    if (nid, p, canon) not in _REF:
         net = B.POOL[nid]
-        _REF[(nid, p)] = tuple(map(tuple, ctg.array_contract_path(
-            net.sym_inputs(), net.sym_output(), net.sym_sizes(), optimize=PRESETS[p], cache=False)))
-    return _REF[(nid, p)]
+        _REF[(nid, p, canon)] = tuple(map(tuple, ctg.array_contract_path(
+            net.sym_inputs(), net.sym_output(), net.sym_sizes(), optimize=PRESETS[p], cache=False,
+            canonicalize=canon)))
+    return _REF[(nid, p, canon)]
 
 
 class PathCacheProxy(dict):
@@ -93,16 +104,19 @@ def run_iface(programs, chooser=None, free=False):
         B._tls.iface_rec = recs[i]
         try:
             ctl.start(i)
-            for j, (nid, p) in enumerate(programs[i]):
+            for j, qq in enumerate(programs[i]):
+                nid, p = qq[0], qq[1]
+                c = qq[2] if len(qq) > 2 else 0
                 net = B.POOL[nid]
-                B._tls.iface_cur = (CNET[nid], p)
+                B._tls.iface_cur = (cnet(nid, 1 if c == 1 else 0), p)
                 try:
                     with warnings.catch_warnings():
                         warnings.simplefilter("ignore")
-                        path = ctg.array_contract_path(net.sym_inputs(), net.sym_output(), net.sym_sizes(),
-                                                       optimize=PRESETS[p], cache=True)
+                        ins = net.sym_inputs() if c != 1 else tuple(net.sym_inputs())
+                        path = ctg.array_contract_path(ins, net.sym_output(), net.sym_sizes(),
+                                                       optimize=PRESETS[p], cache=True, canonicalize=(c == 0))
                     ok = valid_path(path, len(net.inputs))
-                    ref = reference_path(nid, p)
+                    ref = reference_path(nid, p, c == 0)
                     if ok and ref is not None and tuple(map(tuple, path)) != ref:
                         ok = False     # a complete path, but not the one this preset finds for this contraction
                     results[i].append([nid, nid if ok else -1])
@@ -138,7 +152,8 @@ def oracle(programs, obs):
     for i, prog in enumerate(programs):
         if [r[0] for r in obs["results"][i]] != [q[0] for q in prog]:
             return ("missing-answers", [i, obs["results"][i]])
-        for (nid, p), r in zip(prog, obs["results"][i]):
+        for qq, r in zip(prog, obs["results"][i]):
+            nid, p = qq[0], qq[1]
             if r[1] is None:
                 return ("call-raised", {"thread": i, "asked": nid, "preset": PRESETS[p], "error": r[2]})
             if r[1] != nid:
@@ -147,9 +162,12 @@ def oracle(programs, obs):
 
 
 def compare(drv, programs, obs):
-    resp = drv.call("c16.iface", queues=[[[CNET[nid], p] for nid, p in prog] for prog in programs],
+    def mnet(qq):
+        return cnet(qq[0], 1 if (len(qq) > 2 and qq[2] == 1) else 0)
+
+    resp = drv.call("c16.iface", queues=[[[mnet(qq), qq[1]] for qq in prog] for prog in programs],
                     segments=[[t, l] for t, l in zip(obs["schedule"], obs["seg_labels"])],
-                    probe=sorted({(CNET[nid], p) for prog in programs for nid, p in prog}))
+                    probe=sorted({(mnet(qq), qq[1]) for prog in programs for qq in prog}))
     if "error" in resp:
         return "c16.iface driver error: " + resp["error"]
     if resp["mismatch"] is not None:
@@ -157,7 +175,8 @@ def compare(drv, programs, obs):
         return (f"segment {m['segment']} of the schedule ended at {m['expected']!r} in the implementation, "
                 f"the model's thread comes to {m['got']!r}")
     for i, th in enumerate(resp["threads"]):
-        want = [[CNET[r[0]], CNET[r[1]] if r[1] is not None and r[1] >= 0 else r[1]] for r in obs["results"][i]]
+        want = [[mnet(qq), mnet(qq) if r[1] is not None and r[1] >= 0 else r[1]]
+                for qq, r in zip(programs[i], obs["results"][i])]
         if th["left"] != 0 or th["pc"] != "idle":
             return f"thread {i}: model has not finished its program"
         if [[q, p] for q, _, p in th["results"]] != want:
@@ -175,9 +194,11 @@ def check(ctx, drv, programs, chooser, tag):
     ctx.count(f"I:{tag}")
     ctx.count("I:hits", sum(1 for l in obs["seg_labels"] if l == "hit"))
     ctx.count("I:misses", sum(obs["misses"]))
+    uncached = any(len(qq) > 2 and qq[2] == 2 for prog in programs for qq in prog)
     for prog in programs:
-        for nid, p in prog:
-            ctx.count("I:preset:" + PRESETS[p])
+        for qq in prog:
+            ctx.count("I:preset:" + PRESETS[qq[1]])
+            ctx.count("I:canonicalize:" + ("True", "False", "False+unhashable")[qq[2] if len(qq) > 2 else 0])
     sw = sum(1 for a, b in zip(obs["schedule"], obs["schedule"][1:]) if a != b)
     case = {"kind": "iface", "programs": programs, "schedule": obs["schedule"]}
     ctx.case(case, nontrivial=(len(programs) > 1 and sw > 0) or any(len(p) > 1 for p in programs))
@@ -189,7 +210,7 @@ def check(ctx, drv, programs, chooser, tag):
         return obs, False
     if obs.get("blocked"):
         ctx.count("runs_with_a_thread_blocked_outside_the_controller")
-    elif drv is not None:
+    elif drv is not None and not uncached:
         try:
             diff = compare(drv, programs, obs)
         except Exception as e:
@@ -246,8 +267,10 @@ def run(ctx, drv):
     for _ in range(80 if quick else 1200):
         if ctx.time_left() < 45:
             break
-        programs = [[[rng.choice([0, 1, 2, 3, 3, 4, 4, 6, 6, 7]), rng.choice([0, 0, 1, 2, 3])] for _ in range(rng.randint(1, 3))]
-                    for _ in range(rng.choice([1, 2, 2, 3]))]
+        style = rng.choice([0, 0, 0, 1, 1, 2])      # canonicalize: True / mixed with False / unhashable terms
+        programs = [[[rng.choice([0, 1, 2, 3, 3, 4, 4, 6, 6, 7]), rng.choice([0, 0, 1, 2, 3]),
+                      0 if style == 0 else (rng.choice([0, 1]) if style == 1 else 2)]
+                     for _ in range(rng.randint(1, 3))] for _ in range(rng.choice([1, 2, 2, 3]))]
         r2 = random.Random(rng.randrange(1 << 30))
         check(ctx, drv, programs, lambda en, k, r2=r2: r2.choice(en), "random")
 
